@@ -1,4 +1,5 @@
 import RocflModel.Lemmas.LayoutLemmas
+import RocflModel.Lemmas.ScriptLemmas
 /-
   C11 — objects are stored exactly where the declared layout extension prescribes.
 
@@ -116,5 +117,22 @@ theorem C11_map (cm : CaseMap) (cfg : Cfg) (hash id : Str)
         · have : ts * nt ≤ (zeroPad pad (ts * nt) part).reverse.length := by simpa using hlenp
           simp [toTuples_eq _ _ _ this, joinPath_snoc]
     · simp [hr]
+
+/-! ### from the mapped path to the directory on disk -/
+
+/-- **an accepted object root is stored at exactly the prescribed path**: joining the storage root
+    with the mapped path `rel` names the directory made of the root's segments followed by exactly the
+    segments of `rel` — nothing dropped, nothing resolved away — if and only if the store's guard
+    (`ensure_within_storage_root`) accepts `rel`.  So an id whose prescribed path has an empty, `.` or
+    `..` segment or is absolute, which the file system would silently store somewhere else, must be
+    refused, and every id that is accepted lands where the extension says. -/
+theorem C11_stored_where_prescribed (root : Path) (rel : Str) :
+    resolveJoin root rel = root ++ splitSlash rel ↔ safeRel rel = true :=
+  resolveJoin_exact_iff root rel
+
+/-- the ids the placement run of the check feeds in: refused by the guard, each for its own reason -/
+theorem C11_unnormalised_refused :
+    safeRel "c//d".toList = false ∧ safeRel "e/./f".toList = false ∧ safeRel "g/h/".toList = false ∧
+    safeRel "/abs".toList = false ∧ safeRel "a/../b".toList = false ∧ safeRel "c/d".toList = true := by decide
 
 end Rocfl.Theorems.C11
